@@ -92,6 +92,85 @@ def _session_eq(atom, positive=True, func=None):
     return key[1] == ('==' if positive else '!=')
 
 
+def _create_side(ctx, svc, create, host):
+    """Obligations on a routine that creates presence nodes through
+    _safe_create: on_create_request itself or a helper it calls with the
+    request id.  Returns the number of creation sites it accounts for."""
+    sites = 0
+    if host is create:
+        rid = create.params()[1]
+    else:
+        # the helper's request-id parameter: the one handed to _safe_create
+        first = [c for c in K.calls(host.node)
+                 if K.is_meth(c, '_safe_create') and c.args]
+        rid = N.txt(first[0].args[0]) if first else None
+        callers = [c for c in K.calls(create.node)
+                   if K.is_meth(c, host.name)]
+        ctx.require(rid in host.params() and callers,
+                    'request id parameter of %s' % host.qualname)
+        for call in callers:
+            passed = K.call_passes_as(call, host, create.params()[1])
+            ctx.ob('C17.4', create, call, passed == rid,
+                   'the request id is handed to %s (for the retry)' %
+                   host.name, construct='%s request id' % N.txt(call)[:50])
+            sites += 1
+    cgraph = ctx.cfg(host)
+    creates = [n for n in cgraph.nodes if n.kind == 'test' and any(
+        K.is_meth(c, '_safe_create') for c in K.calls(n.ast))]
+    ctx.require(creates, '_safe_create tests in %s' % host.qualname)
+    if host is create:
+        sites += len(creates)
+    for test in creates:
+        call = [c for c in K.calls(test.ast)
+                if K.is_meth(c, '_safe_create')][0]
+        pvar = N.txt(call.args[1])
+
+        def records(node, pvar=pvar):
+            stmt = node.ast
+            return node.kind == 'stmt' and isinstance(stmt, ast.Assign) \
+                and isinstance(stmt.targets[0], ast.Subscript) and \
+                N.txt(stmt.targets[0].slice) == pvar and \
+                N.txt(stmt.targets[0].value).startswith('self.presence[') \
+                and N.txt(stmt.value) == rid
+        # success = the edge on which `_safe_create(...)` is truthy
+        succ = [e for e in test.succ if e.kind == 'true']
+        others = [c for c in creates if c is not test]
+        path = None
+        for edge in succ:
+            if records(edge.dst):
+                continue
+            path = K.find_path(
+                test, others + [cgraph.exit], cut_node=records,
+                cut_edge=lambda e, t=test: e.src is t and e.kind != 'true',
+                follow_exc=False)
+        ctx.ob('C17.4', host, test, path is None,
+               'after a successful create the path is recorded for this '
+               'request id (plain assignment) before the next create',
+               path=K.describe(path) if path else None)
+        ctx.ob('C17.4', host, test, N.txt(call.args[0]) == rid,
+               'the request id is handed to _safe_create (for the retry)',
+               construct='%s request id' % test.text(50))
+    # records only after success
+    recs = [n for n in cgraph.nodes if n.kind == 'stmt' and
+            isinstance(n.ast, ast.Assign) and isinstance(
+                n.ast.targets[0], ast.Subscript) and
+            N.txt(n.ast.targets[0].value).startswith('self.presence[')]
+    other_writes = [n for n in cgraph.nodes for c in C.node_calls(n)
+                    if K.is_meth(c, 'setdefault', 'update') and
+                    'self.presence' in (K.recv_text(c) or '')]
+    ctx.ob('C17.4', host, other_writes[0] if other_writes else None,
+           not other_writes,
+           'the owner table is written by plain assignment only (a '
+           'setdefault would keep the previous container as owner)',
+           construct='owner table writes')
+    for node in recs:
+        ok = K.guarded_by(cgraph, node, lambda e: e.src in creates and
+                          e.kind == 'true')
+        ctx.ob('C17.4', host, node, ok,
+               'a path is recorded only after its create succeeded')
+    return sites
+
+
 def check(ctx):
     index = ctx.index
     nz = N.Normaliser()
@@ -194,60 +273,14 @@ def check(ctx):
     delete = svc.methods.get('on_delete_request')
     ctx.require(create is not None and delete is not None,
                 'on_create_request / on_delete_request')
-    rid = create.params()[1]
-    cgraph = ctx.cfg(create)
-    creates = [n for n in cgraph.nodes if n.kind == 'test' and any(
-        K.is_meth(c, '_safe_create') for c in K.calls(n.ast))]
-    ctx.require(len(creates) >= 3, '_safe_create tests in '
-                                   'on_create_request')
-    for test in creates:
-        call = [c for c in K.calls(test.ast)
-                if K.is_meth(c, '_safe_create')][0]
-        pvar = N.txt(call.args[1])
-
-        def records(node, pvar=pvar):
-            stmt = node.ast
-            return node.kind == 'stmt' and isinstance(stmt, ast.Assign) \
-                and isinstance(stmt.targets[0], ast.Subscript) and \
-                N.txt(stmt.targets[0].slice) == pvar and \
-                N.txt(stmt.targets[0].value).startswith('self.presence[') \
-                and N.txt(stmt.value) == rid
-        # success = the edge on which `_safe_create(...)` is truthy
-        succ = [e for e in test.succ if e.kind == 'true']
-        others = [c for c in creates if c is not test]
-        path = None
-        for edge in succ:
-            if records(edge.dst):
-                continue
-            path = K.find_path(
-                test, others + [cgraph.exit], cut_node=records,
-                cut_edge=lambda e, t=test: e.src is t and e.kind != 'true',
-                follow_exc=False)
-        ctx.ob('C17.4', create, test, path is None,
-               'after a successful create the path is recorded for this '
-               'request id (plain assignment) before the next create',
-               path=K.describe(path) if path else None)
-        ctx.ob('C17.4', create, test, N.txt(call.args[0]) == rid,
-               'the request id is handed to _safe_create (for the retry)',
-               construct='%s request id' % test.text(50))
-    # records only after success
-    recs = [n for n in cgraph.nodes if n.kind == 'stmt' and
-            isinstance(n.ast, ast.Assign) and isinstance(
-                n.ast.targets[0], ast.Subscript) and
-            N.txt(n.ast.targets[0].value).startswith('self.presence[')]
-    other_writes = [n for n in cgraph.nodes for c in C.node_calls(n)
-                    if K.is_meth(c, 'setdefault', 'update') and
-                    'self.presence' in (K.recv_text(c) or '')]
-    ctx.ob('C17.4', create, other_writes[0] if other_writes else None,
-           not other_writes,
-           'the owner table is written by plain assignment only (a '
-           'setdefault would keep the previous container as owner)',
-           construct='owner table writes')
-    for node in recs:
-        ok = K.guarded_by(cgraph, node, lambda e: e.src in creates and
-                          e.kind == 'true')
-        ctx.ob('C17.4', create, node, ok,
-               'a path is recorded only after its create succeeded')
+    hosts = [f for f in svc.live_methods() if f is not sc and any(
+        K.is_meth(c, '_safe_create') for c in K.calls(f.node))]
+    ctx.require(hosts, 'callers of _safe_create')
+    sites = 0
+    for host in hosts:
+        sites += _create_side(ctx, svc, create, host)
+    ctx.require(sites >= 3, '_safe_create tests in on_create_request '
+                            '(found %d)' % sites)
     # delete side
     did = delete.params()[1]
     dg = ctx.cfg(delete)
@@ -355,7 +388,9 @@ def check(ctx):
                             len(key[2]) == 2:
                         other = [t for t, _c in key[2]
                                  if t != 'self.hostname'][0]
-                        if 'data' in other and 'startswith' not in other:
+                        read = 'data' in other or 'zkutils.get(' in other \
+                            or 'zkclient.get(' in other
+                        if read and 'startswith' not in other:
                             return True
                 return False
             loop = K.enclosing_for(graph, node)
